@@ -24,7 +24,9 @@
        LruDiskCache::commit returns an error - EXDEV when the shard directory is a
        mount point of its own, EACCES, ENOSPC for the directory entry; [TInsertFileCopy]:
        fs::rename in LruDiskCache::insert_file fails and the code falls back to
-       fs::copy, which either completes or stops part-way with an error). *)
+       fs::copy - to a temp-named file next to the destination, renamed afterwards - which
+       either completes or stops part-way with an error; [tc_crash_insert_file_copy]: the
+       process is killed in the middle of that copy). *)
 From Coq Require Import List NArith Bool.
 From Sccache Require Import Base.Sx.
 From Sccache Require Import Model.Lru.
@@ -189,9 +191,10 @@ Definition tc_insert_with_xdev (s : tst) (i : id) (b : bytes) : tst * tres * opt
     end.
 
 (* TcCache::insert_file when fs::rename of the packaged archive fails: LruDiskCache::insert_file
-   falls back to fs::copy straight to the final path.  [fits] = the copy completes; otherwise
-   it stops part-way with an error and insert_by removes what is at the path (Lru.insert_by
-   with a failing writer). *)
+   falls back to fs::copy into a temp-named file in the destination directory, then renames
+   it into place.  [fits] = the copy completes; otherwise it stops part-way with an error, the
+   temp file is dropped and insert_by removes what is at the path (Lru.insert_by with a
+   failing writer). *)
 Definition tc_insert_file_copy (s : tst) (b : bytes) (fits : bool) : tst * tres * option key * list bytes :=
   let i := digest b in
   if negb (valid_id i) then (s, TRejected, None, [])
@@ -222,20 +225,16 @@ Definition tc_remove (s : tst) (i : id) : tst * tres :=
 
 Definition tc_reopen (s : tst) (c : N) : tst := mk s (reopen (lru s) c).
 
-(* KNOWN FINDING C17-K1 (current tree): the process is killed while that fall-back copy has
-   written the first [k] bytes - the copy goes straight to the final path, after the old index
-   entry was forgotten - and the cache is started again with capacity [c].  Not an operation of
-   [top]: the theorems do not cover this crash point; C17_crash_in_fallback_copy_refuted shows
-   that they could not. *)
+(* The process is killed while that fall-back copy has written the first [k] bytes, and the
+   cache is started again with capacity [c].  Since fix 7ead532 (finding C17-K1) the copy goes
+   to a temp-named file next to the destination and is renamed afterwards: at the crash point
+   the old index entry has been forgotten (in memory only), whatever was at the final path is
+   still there, and the partial copy is a temp file, which LruDiskCache::new deletes. *)
 Definition tc_crash_insert_file_copy (s : tst) (b : bytes) (k : nat) (c : N) : tst :=
   let i := digest b in
   if negb (valid_id i) then tc_reopen s c
   else if negb (blen b <=? cap (lru s)) then tc_reopen s c
-  else
-    let l1 := lru_remove (lru s) (key_path i) in
-    let part := firstn k b in
-    let l2 := tick (set_files l1 (ains (key_path i) (blen part, clock l1 + 1) (files l1))) in
-    mk_put s (reopen l2 c) (key_path i) part.
+  else mk s (reopen (lru_remove (lru s) (key_path i)) c).
 
 (* ---------- operations ---------- *)
 
